@@ -1060,6 +1060,17 @@ func (e *Exec) modelValues(ts []*Term) map[string]string {
 	return res
 }
 
+// realCode: the harness asked for the function's own code instead of its stub
+// (directive real=<substring of the qualified name>).
+func (e *Exec) realCode(fn *ssa.Function) bool {
+	for _, r := range e.h.Real {
+		if strings.Contains(fn.String(), r) {
+			return true
+		}
+	}
+	return false
+}
+
 func (e *Exec) unblocked(fn *ssa.Function) bool {
 	if fn.Pkg == nil {
 		return false
@@ -1473,7 +1484,7 @@ func (e *Exec) callFunction(fn *ssa.Function, args []Value) Value {
 	if e.h.Havoc[fn.String()] || (fn.Pkg != nil && e.h.Havoc[fn.Pkg.Pkg.Name()+"."+fn.Name()]) {
 		return e.havocCall(fn, args)
 	}
-	if intr := e.w.lookupIntrinsic(fn); intr != nil {
+	if intr := e.w.lookupIntrinsic(fn); intr != nil && !e.realCode(fn) {
 		return intr(e, fn, args)
 	}
 	if e.h.Ideal {
